@@ -5,7 +5,7 @@ import shutil
 
 from . import core
 
-RT = os.path.join(core.VERIF, "suites", "rt")
+RT = core.materialize(os.path.join(core.VERIF, "suites", "rt"), "rt")
 _BIN = None
 
 
